@@ -62,7 +62,7 @@ _real_replace = os.replace
 def _replace(src, dst, *args, **kwargs):
     w = ControlledPool.world
     kind = None
-    if w is not None and isinstance(dst, str) and os.path.abspath(dst).startswith(w.path + os.sep):
+    if w is not None and isinstance(dst, str) and os.path.abspath(dst).startswith(w.abspath + os.sep):
         n = w.next_index("rp")
         kind = w.plan.get(("rp", n))
         w.log.append(("replace", os.path.basename(dst), n))
@@ -515,12 +515,17 @@ class World:
     """A real FileCache on a scratch directory, in sequential or controlled-parallel mode."""
 
     def __init__(self, size_bytes=2500, parallel=False, allow_missing=True, path=None, plan=None,
-                 prefix=(), api="object", evict_on_start=False, use_sched=None):
+                 prefix=(), api="object", evict_on_start=False, use_sched=None, relative=False):
         patch_process()
         from ocean_science_utilities.filecache import cache_object
 
         self.cache_object = cache_object
         self.path = path or fresh_dir()
+        self.abspath = os.path.abspath(self.path)
+        if relative:
+            # the cache is created with a path relative to the working directory
+            os.chdir(os.path.dirname(self.abspath))
+            self.path = os.path.basename(self.abspath)
         self.size_gb = size_bytes / 1e9
         self.parallel = parallel
         self.allow_missing = allow_missing
@@ -711,7 +716,7 @@ class World:
         if self.sched is not None:
             self.sched.kill()
             self.sched.join()
-        shutil.rmtree(self.path, ignore_errors=True)
+        shutil.rmtree(self.abspath, ignore_errors=True)
         if self.crashed:
             shutil.rmtree(self.crashed, ignore_errors=True)
 
